@@ -122,6 +122,7 @@ _SIMPLE = {
     "SliceMul": "slice:FloatMultiplyOperation:FloatDataCollection",
     "SliceMulDef": "slice:FloatMultiplyOperationWithDefault:FloatDataCollection",
     "CtxWP": "VCtxScaleWrite",
+    "IncIP": "VInPlaceIncrement",
     "SliceCtxW": "slice:VCtxScaleWrite:FloatDataCollection",
 }
 
@@ -131,7 +132,7 @@ REF_CLASS = {
     "Mul": "FloatMultiplyOperation", "MulDef": "FloatMultiplyOperationWithDefault", "Add": "FloatAddOperation",
     "Sq": "FloatSquareOperation", "Sum": "FloatCollectionSumOperation", "Sink": "FloatDataSink",
     "CtxW": "VCtxWriteOperation", "CtxWBad": "VCtxBadWriteOperation", "Boom": "VBoomOperation",
-    "Abort": "VAbortOperation", "Probe": "FloatCollectValueProbe", "CtxWP": "VCtxScaleWrite",
+    "Abort": "VAbortOperation", "Probe": "FloatCollectValueProbe", "CtxWP": "VCtxScaleWrite", "IncIP": "VInPlaceIncrement",
 }
 
 
